@@ -85,7 +85,7 @@ require (
 	gopkg.in/yaml.v3 v3.0.1 // indirect
 )
 
-replace github.com/MichaelMure/git-bug => /dev/shm/rdev
+replace github.com/MichaelMure/git-bug => /repo
 
 // copied from /repo/go.mod (replace directives are not inherited)
 replace github.com/praetorian-inc/gokart v0.5.1 => github.com/selesy/gokart v0.5.2-rc1
